@@ -6,7 +6,7 @@ PIPE = os.path.join(vlib.VERIF, "spec", "pipe")
 ASSUME = ["a sink blocked for longer than the grace period is abandoned by Stop: in that scenario only 'Stop returns within its grace period' and 'no deadlock' are judged (the abandoned goroutine resumes when the sink is released)",
           "a sink re-entering Emit is not combined with the blocking strategy (it would wait on the very goroutine that runs it)",
           "decided: no panic escaping an API call, no deadlock (30 s watchdog), Stop within grace, no sink invocation beginning after Stop returned, CEP flush before return, no engine-started goroutine left 3 s after Stop",
-          "NOT decided by this technique: freedom from data races on memory (a memory-model property of the Go program)",
+          "freedom from data races on memory is not a TLA+-level property: it is decided by the Go race detector on the replayed free-running schedules (race-enabled build of the driver), i.e. only for the interleavings that occurred",
           "sequence numbers are taken as the first statement of a sink and right after an API call returns"]
 KINDS = ["direct", "count", "tumbling", "cep", "analytic", "sliding", "session", "global", "ptumble", "pslide", "psession", "late"]
 
@@ -31,6 +31,12 @@ def run(tier):
             scen.append({"kind": kind, "strategy": strat, "sinks": sinks,
                          "workers": rng.choice([4, 6, 8]), "ops": rng.choice([100, 200] if quick else [300, 1000]), "seed": rng.randrange(1 << 30)})
     seqfam.run_scenarios(res, scen, "TraceLifecycle", spec_dir=PIPE, tag="life", sub="life", timeout=3000, procs=8)   # one scenario at a time per process (goroutine accounting); they mostly wait (settling, grace)
+    # the same free-running product once more with a race-enabled build of the driver: the Go race detector is the oracle for
+    # "never race on memory" on the schedules that are replayed (TLC cannot decide a memory-model property)
+    rscen = [dict(sc, ops=min(sc.get("ops", 100), 150)) for sc in scen if not sc.get("directed")]
+    if quick:
+        rscen = rscen[::2]
+    seqfam.run_scenarios(res, rscen, "TraceLifecycle", spec_dir=PIPE, tag="life-race", sub="life", timeout=3000, procs=8, race=True)
     res.cov["exhaustive"] = False
     res.cov["distinct_nontrivial"] = len({json.dumps(s, sort_keys=True) for s in scen})
     res.cov["rule"] = ("directed schedules from the TLA+ Lifecycle model (an EmitSync inside its first synchronous sink while Stop runs to completion; Emit/EmitSync/GetStats/TriggerWindow/second Stop after Stop returned) for every query kind x strategy, "
